@@ -41,6 +41,60 @@ type Escape struct {
 	Instr ssa.Instruction
 	Field *types.Var
 	Base  types.Type
+	// Into: index of the parameter of the summarised function whose memory receives the pointer (-1: other memory)
+	Into int
+	// Rel: field path, inside the object parameter Into points to, of the cell that receives the pointer ("" = unknown/whole)
+	Rel string
+}
+
+// relPath: addr as (parameter, field path below it); path "" when the address is reached through loads.
+func relPath(fn *ssa.Function, addr ssa.Value) (int, string) {
+	if p, ok := addr.(*ssa.Parameter); ok {
+		return paramIndex(fn, p), ""
+	}
+	if base, pth := basePath(addr); base != nil {
+		if p, ok := base.(*ssa.Parameter); ok {
+			return paramIndex(fn, p), pth
+		}
+	}
+	// reached through a load: the cell lies in a different object than the one the parameter points to
+	return -1, ""
+}
+
+// rootParam: the parameter whose reachable memory address v lies in (nil if none).
+func rootParam(v ssa.Value) *ssa.Parameter {
+	for i := 0; i < 16; i++ {
+		switch x := v.(type) {
+		case *ssa.Parameter:
+			return x
+		case *ssa.FieldAddr:
+			v = x.X
+		case *ssa.IndexAddr:
+			v = x.X
+		case *ssa.UnOp:
+			if x.Op != token.MUL {
+				return nil
+			}
+			v = x.X
+		case *ssa.Slice:
+			v = x.X
+		default:
+			return nil
+		}
+	}
+	return nil
+}
+
+func paramIndex(fn *ssa.Function, p *ssa.Parameter) int {
+	if p == nil {
+		return -1
+	}
+	for i, q := range fn.Params {
+		if q == p {
+			return i
+		}
+	}
+	return -1
 }
 
 type kind uint8
@@ -316,6 +370,7 @@ func (e *Eng) run(fn *ssa.Function, src map[ssa.Value]kind, depth int, el *elemS
 	// local allocs that hold carriers: tracked as carrier (address of local memory), with the
 	// field paths that actually received shared pointers
 	paths := map[*ssa.Alloc]map[string]bool{}
+	pkind := map[*ssa.Alloc]map[string]kind{} // strongest kind stored at each path (shared if unknown)
 	cp := map[ssa.Value]pathSet{} // non-alloc carrier pointers (parameters, call results): known shared field paths
 	cpKnown := map[ssa.Value]bool{}
 	for v, ps := range e.initCP {
@@ -391,7 +446,24 @@ func (e *Eng) run(fn *ssa.Function, src map[ssa.Value]kind, depth int, el *elemS
 								continue // this field of the fresh container never received a shared pointer
 							}
 						}
-						changed = set(x, loadKind(x.X, x.Type())) || changed
+						lk := loadKind(x.X, x.Type())
+						if al, pth := addrPath(x.X); lk == shared && al != nil && get(al) == carrier {
+							// every store that can have filled this cell stored a fresh container: the loaded
+							// pointer points to fresh memory holding shared pointers, not to shared memory
+							allCarrier, any := true, false
+							for sp, sk := range pkind[al] {
+								if strings.HasPrefix(pth, sp) || strings.HasPrefix(sp, pth) {
+									any = true
+									if sk != carrier {
+										allCarrier = false
+									}
+								}
+							}
+							if any && allCarrier {
+								lk = carrier
+							}
+						}
+						changed = set(x, lk) || changed
 					}
 				case *ssa.Lookup:
 					if get(x.X) != none {
@@ -489,6 +561,13 @@ func (e *Eng) run(fn *ssa.Function, src map[ssa.Value]kind, depth int, el *elemS
 								paths[al][pth] = true
 								changed = true
 							}
+							if pkind[al] == nil {
+								pkind[al] = map[string]kind{}
+							}
+							if pkind[al][pth] < vk {
+								pkind[al][pth] = vk
+								changed = true
+							}
 							changed = set(al, carrier) || changed
 							if x.Addr != ssa.Value(al) {
 								changed = set(x.Addr, carrier) || changed
@@ -502,6 +581,27 @@ func (e *Eng) run(fn *ssa.Function, src map[ssa.Value]kind, depth int, el *elemS
 						}
 					}
 				case *ssa.Call:
+					for _, et := range e.escapeTargets(x, get, depth) {
+						tgt := et.v
+						if al, pth := addrPath(tgt); al != nil {
+							pth += et.rel
+							if paths[al] == nil {
+								paths[al] = map[string]bool{}
+							}
+							if !paths[al][pth] {
+								paths[al][pth] = true
+								changed = true
+							}
+							if pkind[al] == nil {
+								pkind[al] = map[string]kind{}
+							}
+							pkind[al][pth] = shared
+							changed = set(al, carrier) || changed
+							if tgt != ssa.Value(al) {
+								changed = set(tgt, carrier) || changed
+							}
+						}
+					}
 					if k := e.callResult(x, get, depth); k != none {
 						if k == carrier && !cpKnown[x] {
 							if ps, ok := e.lastPaths, e.lastPathsKnown; ok {
@@ -545,18 +645,21 @@ func (e *Eng) run(fn *ssa.Function, src map[ssa.Value]kind, depth int, el *elemS
 					addSink(in, "store", nil, f)
 				} else if get(x.Val) != none && !isLocalAddr(x.Addr) && ak == none {
 					// shared pointer stored into other non-local memory: escape
-					res.escapes = append(res.escapes, Escape{Fn: fn, Instr: in, Field: fieldVar(x.Addr), Base: baseType(x.Addr)})
+					res.escapes = append(res.escapes, func() Escape {
+						into, rel := relPath(fn, x.Addr)
+						return Escape{Fn: fn, Instr: in, Field: fieldVar(x.Addr), Base: baseType(x.Addr), Into: into, Rel: rel}
+					}())
 				}
 			case *ssa.MapUpdate:
 				if get(x.Map) == shared {
 					curTarget = x.Map
 					addSink(in, "map-update", nil, "")
 				} else if (get(x.Value) != none || get(x.Key) != none) && get(x.Map) == none {
-					res.escapes = append(res.escapes, Escape{Fn: fn, Instr: in})
+					res.escapes = append(res.escapes, Escape{Fn: fn, Instr: in, Into: -1})
 				}
 			case *ssa.Send:
 				if get(x.X) != none {
-					res.escapes = append(res.escapes, Escape{Fn: fn, Instr: in})
+					res.escapes = append(res.escapes, Escape{Fn: fn, Instr: in, Into: -1})
 				}
 			case *ssa.Return:
 				for i, r := range x.Results {
@@ -728,6 +831,59 @@ func allArgs(c *ssa.CallCommon) []ssa.Value {
 	return c.Args
 }
 
+// escapeTargets: the arguments of the call whose memory receives a tainted pointer inside a callee
+// (callee stores parameter i, tainted here, into memory reachable from parameter j).
+type escTarget struct {
+	v   ssa.Value
+	rel string
+}
+
+func (e *Eng) escapeTargets(call *ssa.Call, get func(ssa.Value) kind, depth int) []escTarget {
+	c := call.Common()
+	if _, isB := c.Value.(*ssa.Builtin); isB {
+		return nil
+	}
+	args := allArgs(c)
+	any := false
+	for _, a := range args {
+		if get(a) != none {
+			any = true
+		}
+	}
+	if !any {
+		return nil
+	}
+	var out []escTarget
+	for _, callee := range e.P.Callees(call) {
+		if callee.Blocks == nil || !e.P.InModule(callee) {
+			continue
+		}
+		for i, a := range args {
+			if get(a) == none || i >= len(callee.Params) {
+				continue
+			}
+			var aps pathSet
+			if get(a) == carrier && e.pathsOf != nil {
+				if ps, ok := e.pathsOf(a); ok {
+					aps = ps
+					if aps == nil {
+						aps = pathSet{}
+					}
+				}
+			}
+			savedL, savedK := e.lastPaths, e.lastPathsKnown
+			sm := e.sumP(callee, i, depth+1, get(a), e.cur, aps)
+			e.lastPaths, e.lastPathsKnown = savedL, savedK
+			for _, es := range sm.escapes {
+				if es.Into >= 0 && es.Into != i && es.Into < len(args) {
+					out = append(out, escTarget{args[es.Into], es.Rel})
+				}
+			}
+		}
+	}
+	return out
+}
+
 func (e *Eng) callResult(call *ssa.Call, get func(ssa.Value) kind, depth int) kind {
 	return e.callResultAt(call, get, depth, -1)
 }
@@ -776,6 +932,11 @@ func (e *Eng) callResultAt(call *ssa.Call, get func(ssa.Value) kind, depth int, 
 				return rk
 			}
 		}
+		// append copies the appended elements: pointers they hold are retained by the result
+		// NOTE: append(x, elems...) with only elems tainted yields none: propagating it (as a fresh carrier)
+		// needs per-path kinds in summaries to avoid treating every slice later loaded from the receiving
+		// object as shared memory (tried; 26 false alarms in E2b). Rules that need "pointer stored
+		// anywhere" use props.storesPointer instead.
 		return none
 	}
 	callees := e.P.Callees(call)
@@ -959,6 +1120,12 @@ func (e *Eng) callSinks(fn *ssa.Function, in ssa.Instruction, c *ssa.CallCommon,
 				setRoot(nil)
 			}
 			for _, es := range s.escapes {
+				if es.Into >= 0 && es.Into < len(args) {
+					into, rel := relPath(fn, args[es.Into])
+					es.Into, es.Rel = into, rel+es.Rel
+				} else {
+					es.Into, es.Rel = -1, ""
+				}
 				res.escapes = append(res.escapes, es)
 			}
 		}
